@@ -3,7 +3,7 @@ SPEC = dict(
     prop="C19",
     proof_module="SimbodyProofs.C19",
     sources=["SimbodyModel/Proto.lean", "SimbodyModel/C19.lean", "SimbodyProofs/C19_lemmas.lean",
-             "SimbodyProofs/C19.lean", "Drivers/C19.lean"],
+             "SimbodyProofs/C19.lean", "Drivers/C19.lean", "SimbodyModel/C22.lean", "SimbodyProofs/C22.lean"],
     n=dict(quick=400, thorough=20000),
     rtol=0.0, atol=0.0,
     modes=["", "directed"],
@@ -21,7 +21,7 @@ SPEC = dict(
             "proposes the trace hook that would expose them",
     assumptions=[
         "takeOneStep is an oracle constrained by its contract ansOK (t0 < t1 <= tMax, window inside the step, report time not strictly inside the window); an answer violating it is reported as TAKEONESTEP_CONTRACT_VIOLATED by the driver",
-        "legal request = the two asserts of stepTo (report >= getTime(), scheduled >= getTime()) plus scheduled >= getAdvancedTime() (what TimeStepper guarantees); reinitialize only after ReachedEventTrigger / ReachedScheduledEvent / TimeHasAdvanced returns",
+        "legal request = the two asserts of stepTo (report >= getTime(), scheduled >= getTime()) plus: a scheduled time behind the advanced state is not earlier than the report time (TimeStepper passes min(nextScheduledEvent, t) with nextScheduledEvent beyond the advanced time, so this holds for it; the direct-API violation is generated as class schedBehindAdvanced); reinitialize only after ReachedEventTrigger / ReachedScheduledEvent / TimeHasAdvanced returns",
         "times are compared exactly (doubles read as rationals, +inf as 2^1024); the model uses only comparisons and min",
     ],
 )
